@@ -84,6 +84,18 @@ def generate(rng, tier):
             rule["then"] = r.choice(["resume", "resume", "kill"])
             rule["after"] = r.choice([near(), 2.2 * T, 0.0])
         policy.append(rule)
+    if nreq >= 2 and r.random() < 0.5:
+        # overlapping hooks on one connection: the origin closes after the first answer, an async
+        # server_disconnected hook (A) is still running when the next request's hook (B) starts; A and B finish in
+        # FIFO or LIFO order and the one that finishes last outlives the timeout
+        replies["0"]["then"] = "fin"
+        a = r.choice([0.2 * T, 0.5 * T, 1.5 * T])
+        b = r.choice([a + 1.2 * T, a + 2.0 * T, 0.1 * T, a + T + 1e-3])
+        policy = [p for p in policy if p["hook"] not in ("server_disconnected",)]
+        policy.append({"hook": "server_disconnected", "nth": 0, "latency": a, "action": "pass"})
+        policy.append({"hook": r.choice(["requestheaders", "request"]), "nth": 1, "latency": b, "action": "pass"})
+        # the second request follows the first answer immediately
+        steps = [s for s in steps if not (s["op"] == "sleep")]
     origin = {"kind": "h1", "replies": replies, "idle_close": 4.0 * T + 7, "connect": [{"delay": r.choice([0, 0, near()])}]}
     return {"family": "lifecycle-" + mode.split(":")[0], "modes": [mode], "eager": r.random() < 0.5,
             "options": {"tcp_timeout": T, "connection_strategy": r.choice(["eager", "lazy"])},
